@@ -225,6 +225,7 @@ func c02Run(c *lib.Ctx) {
 	selfCheck := 0
 	sites := map[string]int64{}
 	answers := map[string]bool{}
+	polls, aborted := 0, false
 	for _, spec := range dbs {
 		qs := c02Queries
 		if spec.Special == "" && spec.Personal == nil && len(spec.Pool) <= 2 {
@@ -284,6 +285,11 @@ func c02Run(c *lib.Ctx) {
 				var explore func(prefix []mapDev, from int, pts []mapPoint, depth int)
 				explore = func(prefix []mapDev, from int, pts []mapPoint, depth int) {
 					for i := from; i < len(pts); i++ {
+						// a single case can have 10^5 executions: the deadline is polled inside it too
+						if polls++; aborted || (polls%32 == 0 && c.Expired()) {
+							aborted = true
+							return
+						}
 						for _, perm := range permMenu(pts[i].N) {
 							devs := append(append([]mapDev{}, prefix...), mapDev{i, perm})
 							cs2 := cs
@@ -315,10 +321,15 @@ func c02Run(c *lib.Ctx) {
 					}
 				}
 				d := bound
-				if c.Thorough() && spec.Special == "" && len(spec.Pool) <= 3 && oi%3 == 1 {
+				if c.Thorough() && spec.Special == "" && len(spec.Pool) <= 3 && oi%3 == 1 && len(pts) <= 32 {
+					// two deviating points at once: quadratic in the number of range points, so only where there are few
 					d = 2
+					c.Count("cases_with_two_deviating_points", 1)
 				}
 				explore(nil, 0, pts, d)
+				if aborted {
+					return
+				}
 				if len(distinct) > 1 {
 					c.Count("cases_with_more_than_one_answer", 1)
 				}
@@ -343,9 +354,9 @@ func c02Run(c *lib.Ctx) {
 func init() {
 	lib.Register(&lib.Check{
 		ID: "C02", Level: "model_checking",
-		Rule:      "map-iteration-order exploration (the runtime's randomised order as scheduler): for every case = (database: 12 identical entries, all sequences of <=2 of a 10-entry tie-rich pool, 12 (quick) / 228 (thorough) longer sequences, the 40-entry database, a 14-entry database of short overlapping entries, 3 main+notebook pairs merged by LoadDatabaseWithPersonal with equal-scoring notebook entries) x 19 queries (lexical, 11-13-word, NLP-expanded, typo-fallback) x {NLP, fuzzy} x limit {1,2,50} + GetSuggestions, the execution 'load the database through the real loader, then search' is run under the canonical order and under every schedule deviating at <=1 dynamic range point (<=2 on short databases, thorough), a deviating point taking every permutation (<=4 keys) or reverse / rotate / every adjacent transposition (<=12 keys) / 6 spread transpositions (more keys); the ordered (entry, score-bits) list must be identical. states = cases (canonical executions); transitions = deviating executions; every execution runs the real code (traces validated = evaluations). non-trivial = cases with a non-empty answer. Process form: the instrumented binary (`wtf --format json -v`) is run under four forced whole-process map orders (sorted, reverse, rotate, swap) on 30 (database, query) cases and on the shipped 6,619-entry database for 40 queries, and the plain binary five times per case; outputs must be byte-identical after dropping the timing line. Schedule form: goroutines started by the search itself (rewritten go statements) run under the controlled scheduler; 6 (database, query) cases on a 320-entry look-alike database and the shipped one, every interleaving with <=2 preemptions must give the canonical answer (a single execution each while the search starts no goroutine)",
+		Rule:      "map-iteration-order exploration (the runtime's randomised order as scheduler): for every case = (database: 12 identical entries, all sequences of <=2 of a 10-entry tie-rich pool, 12 (quick) / 228 (thorough) longer sequences, the 40-entry database, a 14-entry database of short overlapping entries, 3 main+notebook pairs merged by LoadDatabaseWithPersonal with equal-scoring notebook entries) x 19 queries (lexical, 11-13-word, NLP-expanded, typo-fallback) x {NLP, fuzzy} x limit {1,2,50} + GetSuggestions, the execution 'load the database through the real loader, then search' is run under the canonical order and under every schedule deviating at <=1 dynamic range point (thorough: <=2 for the limit-2 cases of databases of <=3 entries whose execution has <=32 range points), a deviating point taking every permutation (<=4 keys) or reverse / rotate / every adjacent transposition (<=12 keys) / 6 spread transpositions (more keys); the ordered (entry, score-bits) list must be identical. states = cases (canonical executions); transitions = deviating executions; every execution runs the real code (traces validated = evaluations). non-trivial = cases with a non-empty answer. Process form: the instrumented binary (`wtf --format json -v`) is run under four forced whole-process map orders (sorted, reverse, rotate, swap) on 30 (database, query) cases and on the shipped 6,619-entry database for 40 queries, and the plain binary five times per case; outputs must be byte-identical after dropping the timing line. Schedule form: goroutines started by the search itself (rewritten go statements) run under the controlled scheduler; 6 (database, query) cases on a 320-entry look-alike database and the shipped one, every interleaving with <=2 preemptions must give the canonical answer (a single execution each while the search starts no goroutine)",
 		Assume:    []string{"all map ranges of the repository are routed through vmap by the build overlay (sites listed under instrumentation)", "sort.Slice is deterministic for a given input order", "maps with more than 4 keys get the menu, not all n! orders"},
-		QuickSecs: 360, ThorSecs: 2400, Graph: true,
+		QuickSecs: 360, ThorSecs: 3000, Graph: true,
 		Run: c02Run,
 		Replay: func(c *lib.Ctx, raw json.RawMessage) []lib.Violation {
 			vhost.Set("linux")
